@@ -288,6 +288,11 @@ def shape_diff(e, o) -> List[str]:
         op = sorted((float(x), float(y)) for x, y in o["pts"])
         if not gfx.close_seq(ep, op):
             bad.append("pts")
+        # order: the four corners start at the subpath's (transformed) start point and reach the opposite corner third,
+        # whichever corner the rectangle was begun at and whatever the CTM flips (the direction of travel is not judged)
+        elif len(o["pts"]) != 4 or not gfx.close_seq(tuple(e["pts"][0]), tuple(o["pts"][0])) \
+                or not gfx.close_seq(tuple(e["pts"][2]), tuple(o["pts"][2])):
+            bad.append("pts-order")
     elif not gfx.close_seq(e["pts"], o["pts"]):
         bad.append("pts")
     if not gfx.close_seq(tuple(e["bbox"]), tuple(o["bbox"])):
@@ -371,7 +376,7 @@ GS_EVENTS = (
 GS_STRUCT = [("q",), ("cm", 1, 0, 0, 1, 16, 24), ("cm", 0, 1, -1, 0, 96, 0)]
 GS_ILL = [("w",), ("w", b"x"), ("rg", 1, 0), ("d", (3, 1)), ("cm", 1, 0, 0, 1, 5)]
 # full operand count, one operand of the wrong type: neither the colour nor the colour *space* may change
-GS_ILL_COLOUR = [("g", b"x"), ("G", "/N"), ("rg", 1, 0, b"x"), ("RG", "/N", 0, 1), ("k", 0, 0, (1,), 1), ("K", 1, 0, b"x", 0)]
+GS_ILL_COLOUR = [("cs", "/Undefined"), ("CS", "/Undefined"), ("g", b"x"), ("G", "/N"), ("rg", 1, 0, b"x"), ("RG", "/N", 0, 1), ("k", 0, 0, (1,), 1), ("K", 1, 0, b"x", 0)]
 
 
 def colour_ill_events(m: "GM") -> List[Tuple]:
@@ -475,7 +480,7 @@ BOUNDS = {
 META = {
     "rule": (
         "family gs: breadth-first search over graphics-state operator histories ('all': w x2, d x2, g G rg RG k K, cs/CS x5 spaces incl. ICCBased N=3 and "
-        "Pattern, sc scn SC SCN with the operand count of the current space, q Q, cm x2, 7 ill-formed instances with missing operands, ill-typed full-count g G rg RG k K sc SCN; 'core': q Q cs x3 CS x2 sc SC g RG w d cm, "
+        "Pattern, sc scn SC SCN with the operand count of the current space, q Q, cm x2, 7 ill-formed instances with missing operands, ill-typed full-count g G rg RG k K sc SCN, cs/CS naming an undefined space (no effect); 'core': q Q cs x3 CS x2 sc SC g RG w d cm, "
         "one level deeper) to gs_depth; state = (canonical real "
         "interpreter state, model state), deduplicated; after every transition the probe 're B m l S' is painted and both shapes are compared in every "
         "attribute (class, pts, bbox, original_path, stroke/fill/evenodd, linewidth, dashing_style, stroking/non-stroking colour). "
@@ -503,6 +508,7 @@ META = {
         "operators other than path construction between the first construction operator and the painting operator, F, W/W*",
         "colours are not judged before a colour has been set in the current colour space (ISO initial values vs pdfminer None), nor in a Pattern space",
         "dashing_style None is accepted for 'never set'",
+        "LTRect.pts: corner set, first corner = start point and third = opposite corner are judged; the direction of travel is not",
         "form XObjects appear only in the families forms/pages/leak (fixed contents); inline images and shading are outside this property's quantifier",
     ],
 }
